@@ -57,6 +57,39 @@ func (r Req) key() string {
 	return fmt.Sprintf("%s|%s|%s|%s|%s|%s|%v", r.T, strings.Join(r.Sps, ","), r.M, r.H.Accept, r.H.Ctype, r.H.Override, r.H.Body)
 }
 
+// Src is what the operator wrote for HTTPReadOnly (HttpGate!Sources): the line in the TOML file
+// ("absent" | "true" | "false"), the environment variable ("absent" | "true" | "false" | "empty" |
+// "garbage") and which of the two bound variables ("generic" SHUTTER_..., "legacy" <COMMAND>_..., "-").
+type Src struct {
+	File string `json:"file"`
+	Env  string `json:"env"`
+	Name string `json:"name"`
+}
+
+// NoSource is HttpGate!NoSource (lines of servers built with the harness' own Config).
+var NoSource = Src{File: "-", Env: "-", Name: "-"}
+
+// CfgCase is one (flavour, source) printed by TLC with what the code-shaped spec expects of the
+// configuration pipeline; CfgLine is what the real command's parsing did.
+type CfgCase struct {
+	Flavour string `json:"flavour"`
+	Cfg     Src    `json:"cfg"`
+	Parsed  string `json:"parsed"`
+	Ro      bool   `json:"ro"`
+}
+
+func (c CfgCase) key() string { return fmt.Sprintf("%s|%v", c.Flavour, c.Cfg) }
+
+type CfgLine struct {
+	K       string `json:"k"`
+	Stack   string `json:"stack"`
+	Flavour string `json:"flavour"`
+	Cfg     Src    `json:"cfg"`
+	Parsed  string `json:"parsed"` // ok | error
+	Ro      bool   `json:"ro"`     // HTTPReadOnly of the parsed Config (false when parsed = error)
+	Err     string `json:"err"`
+}
+
 // Case is one single-request case printed by TLC (HttpGateMC EmitInv).
 type Case struct {
 	Req
@@ -67,14 +100,14 @@ type Case struct {
 	// constructor and Config the server is obtained through, Cfg = what the operator wrote for
 	// HTTPReadOnly ("unset" | "true" | "false") and W = what that means (judged setting)
 	Flavour string   `json:"flavour"`
-	Cfg     string   `json:"cfg"`
+	Cfg     Src      `json:"cfg"`
 	Raw     []string `json:"raw,omitempty"`
 	Dec     []string `json:"dec,omitempty"`
 	Exp     []Resp   `json:"exp,omitempty"`
 }
 
 func (c Case) key() string {
-	return fmt.Sprintf("%s|%v|%s|%v|%s|%s", c.Req.key(), c.W, c.Stack, c.UI, c.Flavour, c.Cfg)
+	return fmt.Sprintf("%s|%v|%s|%v|%s|%v", c.Req.key(), c.W, c.Stack, c.UI, c.Flavour, c.Cfg)
 }
 
 // Multi is a history (HttpGateHist HEmitInv) or a concurrent pair (HttpGateConc CEmitInv).
@@ -98,7 +131,7 @@ type CaseLine struct {
 	Stack   string `json:"stack"`
 	UI      bool   `json:"ui"`
 	Flavour string `json:"flavour"`
-	Cfg     string `json:"cfg"`
+	Cfg     Src    `json:"cfg"`
 	W       bool   `json:"w"`
 	Req
 	Obs []Obs `json:"obs"`
@@ -124,7 +157,36 @@ type HistLine struct {
 	Reqs  []Req  `json:"reqs"`
 	Obs   []Obs  `json:"obs"`
 	Ref   []Obs  `json:"ref"`
+	// burst history: what the instance went through before Reqs were served
+	Burst *BurstInfo `json:"burst,omitempty"`
 }
+
+// BurstInfo describes the overload an instance went through and what was seen meanwhile
+// (informative: the monitors judge the requests served AFTER the burst).
+type BurstInfo struct {
+	N         int      `json:"n"`
+	K         int      `json:"k"`
+	Hold      Req      `json:"hold"`
+	Meanwhile Req      `json:"meanwhile"`
+	HeldObs   []Obs    `json:"held_obs"`
+	MeanObs   []Obs    `json:"meanwhile_obs"`
+	Eff       []string `json:"eff"`
+	InFlight  int      `json:"in_flight"` // held requests that were blocked on their body at once
+}
+
+// BurstCase is one after-burst request printed by HttpGateHist (HBurstEmitInv).
+type BurstCase struct {
+	W         bool   `json:"w"`
+	Stack     string `json:"stack"`
+	N         int    `json:"n"`
+	K         int    `json:"k"`
+	Hold      Req    `json:"hold"`
+	Meanwhile Req    `json:"meanwhile"`
+	Req       Req    `json:"req"`
+}
+
+func (b BurstCase) group() string { return fmt.Sprintf("%v|%s|%d|%d", b.W, b.Stack, b.N, b.K) }
+func (b BurstCase) key() string   { return b.group() + "|" + b.Req.key() }
 
 type ConcLine struct {
 	K     string   `json:"k"`
@@ -150,6 +212,8 @@ type plan struct {
 	histSpellings []string
 	histHdr       bool
 	histStacks    []string
+	burstSizes    []int // requests held in flight at once before the single-request domain is served
+	burstExtra    int
 	// concurrency
 	concW      []bool
 	concAll    bool
@@ -164,17 +228,20 @@ func plansFor(thorough bool) []plan {
 	if thorough {
 		return []plan{
 			{stacks: bothStacks, uiModes: bothBools, flavours: true, buildDepth: 3, maxSpell: 2, reps: 3, hdr: true,
+				burstSizes: []int{1, 8, 31, 32, 33, 64, 65, 129, 257, 513}, burstExtra: 600,
 				histDepth: 2, histSpellings: []string{"exact", "encodedLetter", "trailingSlash", "query"}, histStacks: bothStacks,
 				concW: []bool{false, true}, concAll: true, concStacks: bothStacks, concDur: 3 * time.Second},
 			{stacks: []string{"server"}, uiModes: []bool{true}, maxSpell: 3, reps: 3, hdr: true,
 				histDepth: 3, histSpellings: []string{"exact"}, histStacks: []string{"gate"}},
 			{stacks: bothStacks, uiModes: bothBools, flavours: true, buildDepth: 2, maxSpell: 2, reps: 5, hdr: true,
+				burstSizes: []int{8, 33, 65, 129}, burstExtra: 64,
 				histDepth: 2, histSpellings: []string{"exact"}, histHdr: true, histStacks: bothStacks,
 				concW: []bool{false}, concStacks: bothStacks, concDur: 5 * time.Second},
 		}
 	}
 	return []plan{
 		{stacks: bothStacks, uiModes: bothBools, flavours: true, buildDepth: 2, maxSpell: 1, reps: 2, hdr: true,
+			burstSizes: []int{8, 33, 65, 129}, burstExtra: 64,
 			histDepth: 2, histSpellings: []string{"exact"}, histStacks: bothStacks,
 			concW: []bool{false}, concStacks: bothStacks, concDur: 1500 * time.Millisecond},
 		{stacks: []string{"server"}, uiModes: []bool{true}, maxSpell: 2, reps: 2},
@@ -184,6 +251,14 @@ func plansFor(thorough bool) []plan {
 func genModule(base string) (string, []byte) {
 	name := "GEN_" + base
 	return name, []byte(fmt.Sprintf("---- MODULE %s ----\nEXTENDS %s, %s\n====\n", name, base, ConstModule))
+}
+
+func intSet(ns []int) string {
+	var o []string
+	for _, n := range ns {
+		o = append(o, fmt.Sprint(n))
+	}
+	return "{" + strings.Join(o, ", ") + "}"
 }
 
 func tlaBoolSet(bs []bool) string {
@@ -202,6 +277,8 @@ type Gen struct {
 	Hists    []Multi
 	Concs    []Multi
 	Procs    []ProcOrder
+	Cfgs     []CfgCase
+	Bursts   []BurstCase
 	States   int
 	Distinct int
 	SpecViol []string
@@ -275,8 +352,8 @@ func Generate(c *core.Ctx, u *Universe, p plan) (*Gen, error) {
 	if p.histDepth > 0 {
 		run(func() error {
 			cfg := ConstCfg(Methods, Spellings, 1, false, p.histStacks, []bool{false}) +
-				fmt.Sprintf("  HistSpellings = %s\n  HistDepth = %d\n  HistHdrCross = %s\n  MwState = %q\n", qset(p.histSpellings), p.histDepth, tlaBool(p.histHdr), envOr("VERIF_C18_MWSTATE", "none")) +
-				"SPECIFICATION HSpec\nINVARIANT HGateInv\nINVARIANT HLiveInv\nINVARIANT HDetInv\nINVARIANT HEmitInv\nCHECK_DEADLOCK FALSE\n"
+				fmt.Sprintf("  HistSpellings = %s\n  HistDepth = %d\n  HistHdrCross = %s\n  MwState = %q\n  BurstSizes = %s\n  BurstExtra = %d\n  LimiterMax = %s\n", qset(p.histSpellings), p.histDepth, tlaBool(p.histHdr), envOr("VERIF_C18_MWSTATE", "none"), intSet(p.burstSizes), p.burstExtra, envOr("VERIF_C18_LIMITER", "0")) +
+				"SPECIFICATION HSpec\nINVARIANT HGateInv\nINVARIANT HLiveInv\nINVARIANT HDetInv\nINVARIANT HEmitInv\nINVARIANT HBurstEmitInv\nCHECK_DEADLOCK FALSE\n"
 			res, err := runMC(c, u, "HttpGateHist", cfg, g)
 			if err != nil {
 				return err
@@ -286,6 +363,12 @@ func Generate(c *core.Ctx, u *Universe, p plan) (*Gen, error) {
 			}
 			if len(g.Hists) == 0 {
 				return fmt.Errorf("TLC printed no history")
+			}
+			if g.Bursts, err = decodeTagged(res, "BURST", BurstCase.key); err != nil {
+				return err
+			}
+			if len(p.burstSizes) > 0 && len(g.Bursts) == 0 {
+				return fmt.Errorf("TLC printed no burst history")
 			}
 			return nil
 		})
@@ -336,12 +419,18 @@ func Generate(c *core.Ctx, u *Universe, p plan) (*Gen, error) {
 
 func genCases(c *core.Ctx, u *Universe, p plan, g *Gen) error {
 	res, err := runMC(c, u, "HttpGateMC", ConstCfg(Methods, Spellings, p.maxSpell, p.hdr, p.stacks, p.uiModes)+"  FlavourCross = "+tlaBool(p.flavours)+"\n"+
-		"SPECIFICATION Spec\nINVARIANT GateInv\nINVARIANT LiveInv\nINVARIANT DetInv\nINVARIANT AgreeInv\nINVARIANT EmitInv\nCHECK_DEADLOCK FALSE\n", g)
+		"SPECIFICATION Spec\nINVARIANT ConfigInv\nINVARIANT GateInv\nINVARIANT LiveInv\nINVARIANT DetInv\nINVARIANT AgreeInv\nINVARIANT EmitInv\nCHECK_DEADLOCK FALSE\n", g)
 	if err != nil {
 		return err
 	}
 	if g.Cases, err = decodeTagged(res, "CASE", Case.key); err != nil {
 		return err
+	}
+	if g.Cfgs, err = decodeTagged(res, "CFG", CfgCase.key); err != nil {
+		return err
+	}
+	if p.flavours && len(g.Cfgs) == 0 {
+		return fmt.Errorf("TLC printed no configuration case")
 	}
 	if len(g.Cases) == 0 {
 		return errNoCases
@@ -506,7 +595,7 @@ func runCases(cases []Case, body string, reps, workers int) ([]CaseLine, int, er
 					cs.Stack = "server"
 				}
 				if cs.Flavour == "" {
-					cs.Flavour, cs.Cfg = "direct", "-"
+					cs.Flavour, cs.Cfg = "direct", NoSource
 				}
 				ln := CaseLine{K: "case", Stack: cs.Stack, UI: cs.UI, Flavour: cs.Flavour, Cfg: cs.Cfg, W: cs.W, Req: cs.Req, Obs: []Obs{}}
 				for r := 0; r < reps; r++ {
@@ -670,7 +759,15 @@ func runConcs(concs []Multi, body string, dur time.Duration, workers int) ([]Con
 func ReplayAndValidate(c *core.Ctx, g *Gen, witnesses []Case) (*Outcome, error) {
 	out := &Outcome{Gen: g, Stages: map[string]int{}, Effects: map[string]int{}, Kinds: map[string]int{}}
 	p := g.P
-	cases := append(append([]Case{}, witnesses...), g.Cases...)
+	cases := append([]Case{}, witnesses...)
+	var fcases []Case // supply-path cases: served in a child process per (flavour, source)
+	for _, cs := range g.Cases {
+		if cs.Flavour != "" && cs.Flavour != "direct" {
+			fcases = append(fcases, cs)
+		} else {
+			cases = append(cases, cs)
+		}
+	}
 	t0 := time.Now()
 	clines, n1, err := runCases(cases, g.U.Body, p.reps, c.Workers)
 	if err != nil {
@@ -680,6 +777,13 @@ func ReplayAndValidate(c *core.Ctx, g *Gen, witnesses []Case) (*Outcome, error) 
 	if err != nil {
 		return nil, err
 	}
+	blines, n6, err := runBursts(g.Bursts, g.U.Body, c.Workers)
+	if err != nil {
+		return nil, err
+	}
+	hlines = append(hlines, blines...)
+	n2 += n6
+	out.Kinds["burst_lines"], out.Kinds["requests_burst"] = len(blines), n6
 	klines, n3, err := runConcs(g.Concs, g.U.Body, p.concDur, c.Workers)
 	if err != nil {
 		return nil, err
@@ -688,10 +792,16 @@ func ReplayAndValidate(c *core.Ctx, g *Gen, witnesses []Case) (*Outcome, error) 
 	if err != nil {
 		return nil, err
 	}
+	cfglines, flines, n5, err := runFlavours(g.Cfgs, fcases, g.U.Body)
+	if err != nil {
+		return nil, err
+	}
+	out.Kinds["cfg"], out.Kinds["flavour_lines"], out.Kinds["requests_flavour"] = len(cfglines), len(flines), n5
+	clines = append(clines, flines...)
 	clines = append(clines, plines...)
 	out.Kinds["proc_lines"], out.Kinds["requests_proc"] = len(plines), n4
-	out.Requests = n1 + n2 + n3 + n4
-	out.Kinds["case"], out.Kinds["hist"], out.Kinds["conc"] = len(clines)-len(plines), len(hlines), len(klines)
+	out.Requests = n1 + n2 + n3 + n4 + n5
+	out.Kinds["case"], out.Kinds["hist"], out.Kinds["conc"] = len(clines)-len(plines)-len(flines), len(hlines), len(klines)
 	out.Kinds["requests_case"], out.Kinds["requests_hist"], out.Kinds["requests_conc"] = n1, n2, n3
 	out.ReplayS = time.Since(t0).Seconds()
 	var raw []json.RawMessage
@@ -707,6 +817,9 @@ func ReplayAndValidate(c *core.Ctx, g *Gen, witnesses []Case) (*Outcome, error) 
 		} else {
 			add("case", l)
 		}
+	}
+	for _, l := range cfglines {
+		add("cfg", l)
 	}
 	for _, l := range hlines {
 		add("hist", l)
@@ -881,6 +994,11 @@ func describe(f Finding) string {
 		return s
 	}
 	switch f.Kind {
+	case "cfg":
+		var l CfgLine
+		json.Unmarshal(f.Line, &l)
+		return fmt.Sprintf("monitor %s failed: the %s command's configuration parsing with %s gave %s, HTTPReadOnly = %v %s",
+			f.Monitor, l.Flavour, l.Cfg.describe(), l.Parsed, l.Ro, l.Err)
 	case "hist":
 		var l HistLine
 		json.Unmarshal(f.Line, &l)
@@ -889,6 +1007,20 @@ func describe(f Finding) string {
 			ob, _ := json.Marshal(l.Obs[i])
 			rf, _ := json.Marshal(l.Ref[i])
 			parts = append(parts, fmt.Sprintf("%d. %s -> %s (alone on a fresh instance: %s)", i+1, rq(r), ob, rf))
+		}
+		if l.Burst != nil {
+			// only the requests whose decision differs from a fresh instance are worth printing
+			parts = nil
+			for i, r := range l.Reqs {
+				if l.Obs[i] != l.Ref[i] && len(parts) < 4 {
+					ob, _ := json.Marshal(l.Obs[i])
+					rf, _ := json.Marshal(l.Ref[i])
+					parts = append(parts, fmt.Sprintf("%s -> %s (on a fresh instance: %s)", rq(r), ob, rf))
+				}
+			}
+			mo, _ := json.Marshal(l.Burst.MeanObs)
+			return fmt.Sprintf("monitor %s failed on ONE %s instance with write operations %s AFTER an overload (%d x %s held in flight by bodies that did not arrive - %d blocked at once -, %d x %s meanwhile -> %s, then all released): %s",
+				f.Monitor, l.Stack, onOff(l.W), l.Burst.N, rq(l.Burst.Hold), l.Burst.InFlight, l.Burst.K, rq(l.Burst.Meanwhile), mo, strings.Join(parts, "; "))
 		}
 		return fmt.Sprintf("monitor %s failed on a history served by ONE %s instance with write operations %s: %s", f.Monitor, l.Stack, onOff(l.W), strings.Join(parts, "; "))
 	case "conc":
@@ -915,7 +1047,7 @@ func describe(f Finding) string {
 			mode = ", SWAGGER_UI set"
 		}
 		if l.Flavour != "direct" && l.Flavour != "" {
-			mode += fmt.Sprintf(", obtained through the %s keyper's constructor from its Config with HTTPEnabled = true and HTTPReadOnly %s (the operator configured write operations %s)", l.Flavour, l.Cfg, onOff(l.W))
+			mode += fmt.Sprintf(", obtained through the %s command's configuration parsing (%s) and the flavour's NewKeyper (what the operator wrote means write operations %s)", l.Flavour, l.Cfg.describe(), onOff(l.W))
 		}
 		return fmt.Sprintf("monitor %s failed: %s on the %s stack%s with write operations %s (template %s, spelling %v; the instances had served other cases before) observed %s",
 			f.Monitor, rq(l.Req), l.Stack, mode, onOff(l.W), l.T, l.Sps, ob)
@@ -1088,7 +1220,7 @@ func writeEvidence(c *core.Ctx, plans []plan, outs []*Outcome, violations int, s
 			"requests": o.Requests, "deciding_stage_histogram": o.Stages, "observed_effect_histogram": o.Effects,
 			"param_values": o.Gen.U.ParamVal, "templates": len(o.Gen.U.Templates), "replay_s": o.ReplayS, "validate_s": o.ValidateS,
 			"stacks": p.stacks, "supply_path_flavours": p.flavours, "server_modes_swagger_ui": p.uiModes, "construction_order_depth": p.buildDepth, "construction_orders": len(o.Gen.Procs), "max_spelling_sequence": p.maxSpell, "repetitions": p.reps, "header_classes_crossed": p.hdr,
-			"history_depth": p.histDepth, "history_spellings": p.histSpellings, "history_stacks": p.histStacks,
+			"burst_sizes": p.burstSizes, "burst_extra": p.burstExtra, "history_depth": p.histDepth, "history_spellings": p.histSpellings, "history_stacks": p.histStacks,
 			"concurrency_settings": p.concW, "concurrency_all_pairs": p.concAll, "concurrency_stacks": p.concStacks, "concurrency_ms_per_pair": p.concDur.Milliseconds(),
 		})
 	}
@@ -1150,9 +1282,31 @@ func Replay(c *core.Ctx) int {
 	}
 	var line any
 	switch rf.Finding.Kind {
+	case "cfg":
+		var l CfgLine
+		json.Unmarshal(rf.Finding.Line, &l)
+		ls, _, _, err := runFlavours([]CfgCase{{Flavour: l.Flavour, Cfg: l.Cfg}}, nil, rf.Universe.Body)
+		if err != nil || len(ls) == 0 {
+			fmt.Println("INCONCLUSIVE:", err)
+			return core.ExitInconclusive
+		}
+		line = ls[0]
 	case "hist":
 		var l HistLine
 		json.Unmarshal(rf.Finding.Line, &l)
+		if l.Burst != nil {
+			var bcs []BurstCase
+			for _, r := range l.Reqs {
+				bcs = append(bcs, BurstCase{W: l.W, Stack: l.Stack, N: l.Burst.N, K: l.Burst.K, Hold: l.Burst.Hold, Meanwhile: l.Burst.Meanwhile, Req: r})
+			}
+			ls, _, err := runBursts(bcs, rf.Universe.Body, 1)
+			if err != nil || len(ls) == 0 {
+				fmt.Println("INCONCLUSIVE:", err)
+				return core.ExitInconclusive
+			}
+			line = ls[0]
+			break
+		}
 		ls, _, err := runHists([]Multi{{W: l.W, Stack: l.Stack, Reqs: l.Reqs}}, rf.Universe.Body, 1)
 		if err != nil {
 			fmt.Println("INCONCLUSIVE:", err)
@@ -1184,7 +1338,16 @@ func Replay(c *core.Ctx) int {
 			line = ls[l.Inst-1]
 			break
 		}
-		ls, _, err := runCases([]Case{{Req: l.Req, W: l.W, Stack: l.Stack, UI: l.UI, Flavour: l.Flavour, Cfg: l.Cfg}}, rf.Universe.Body, rf.Reps, 1)
+		if l.Flavour != "direct" && l.Flavour != "" {
+			_, ls, _, err := runFlavours([]CfgCase{{Flavour: l.Flavour, Cfg: l.Cfg}}, []Case{{Req: l.Req, W: l.W, Stack: l.Stack, Flavour: l.Flavour, Cfg: l.Cfg}}, rf.Universe.Body)
+			if err != nil || len(ls) == 0 {
+				fmt.Println("INCONCLUSIVE: the configuration did not parse or the request was not served:", err)
+				return core.ExitInconclusive
+			}
+			line = ls[0]
+			break
+		}
+		ls, _, err := runCases([]Case{{Req: l.Req, W: l.W, Stack: l.Stack, UI: l.UI}}, rf.Universe.Body, rf.Reps, 1)
 		if err != nil {
 			fmt.Println("INCONCLUSIVE:", err)
 			return core.ExitInconclusive
@@ -1214,9 +1377,14 @@ func Replay(c *core.Ctx) int {
 const childEnv = "VERIF_C18_CHILD"
 
 type childJob struct {
+	// construction order job
 	Order []bool `json:"order"`
 	Reqs  []Req  `json:"reqs"`
 	Body  string `json:"body"`
+	// supply-path job: run the flavour command's configuration parsing for Cfg, then serve Cases
+	Flavour string `json:"flavour"`
+	Cfg     Src    `json:"cfg"`
+	Cases   []Case `json:"cases"`
 }
 
 // childMain runs in the child: constructs the servers in the given order, then sends every
@@ -1231,6 +1399,9 @@ func childMain() int {
 	if err := json.Unmarshal(b, &job); err != nil {
 		fmt.Fprintln(os.Stderr, err)
 		return core.ExitInconclusive
+	}
+	if job.Flavour != "" {
+		return childFlavour(job)
 	}
 	var gates []*Gate
 	for _, w := range job.Order {
@@ -1249,7 +1420,7 @@ func childMain() int {
 				fmt.Fprintln(os.Stderr, err)
 				return core.ExitInconclusive
 			}
-			enc.Encode(CaseLine{K: "case", Stack: "server", Flavour: "direct", Cfg: "-", W: job.Order[i], Req: r, Obs: []Obs{ob}, Order: job.Order, Inst: i + 1})
+			enc.Encode(CaseLine{K: "case", Stack: "server", Flavour: "direct", Cfg: NoSource, W: job.Order[i], Req: r, Obs: []Obs{ob}, Order: job.Order, Inst: i + 1})
 			if ob.Panic == "hang" {
 				return core.ExitOK
 			}
@@ -1309,12 +1480,219 @@ func runProcs(procs []ProcOrder, body string) ([]CaseLine, int, error) {
 }
 
 func gateKey(cs Case) string {
-	return fmt.Sprintf("%v|%s|%v|%s|%s", cs.W, cs.Stack, cs.UI, cs.Flavour, cs.Cfg)
+	return fmt.Sprintf("%v|%s|%v", cs.W, cs.Stack, cs.UI)
 }
 
 func newGateFor(cs Case) (*Gate, error) {
 	if cs.Flavour != "" && cs.Flavour != "direct" {
-		return NewFlavourGate(cs.Flavour, cs.Cfg)
+		return nil, fmt.Errorf("supply-path cases are served in a child process per (flavour, source)")
 	}
 	return NewGate(cs.W, cs.Stack, cs.UI)
+}
+
+func (s Src) describe() string {
+	f := "no HTTPReadOnly line in the TOML file"
+	if s.File == "true" || s.File == "false" {
+		f = "HTTPReadOnly = " + s.File + " in the TOML file"
+	}
+	switch s.Env {
+	case "absent", "-", "":
+		return f + ", no environment variable"
+	case "empty":
+		return f + ", " + s.Name + " environment variable present but empty"
+	case "garbage":
+		return f + ", " + s.Name + " environment variable = \"maybe\""
+	}
+	return f + ", " + s.Name + " environment variable = \"" + s.Env + "\""
+}
+
+// childFlavour runs in the child: the real configuration pipeline once, then the requests.
+func childFlavour(job childJob) int {
+	enc := json.NewEncoder(os.Stdout)
+	cl := CfgLine{K: "cfg", Stack: "server", Flavour: job.Flavour, Cfg: job.Cfg, Parsed: "ok"}
+	cfg, perr, err := ParseFlavourConfig(job.Flavour, job.Cfg)
+	if err != nil {
+		fmt.Fprintln(os.Stderr, err)
+		return core.ExitInconclusive
+	}
+	if perr != nil {
+		cl.Parsed, cl.Err = "error", perr.Error()
+		if len(cl.Err) > 200 {
+			cl.Err = cl.Err[:200]
+		}
+		enc.Encode(cl)
+		return core.ExitOK
+	}
+	cl.Ro = FlavourReadOnly(cfg)
+	enc.Encode(cl)
+	if len(job.Cases) == 0 {
+		return core.ExitOK
+	}
+	g, err := NewFlavourGate(cfg)
+	if err != nil {
+		fmt.Fprintln(os.Stderr, err)
+		return core.ExitInconclusive
+	}
+	for _, cs := range job.Cases {
+		ob, err := g.Do(cs.M, cs.Target, job.Body, cs.H)
+		if err != nil {
+			fmt.Fprintln(os.Stderr, err)
+			return core.ExitInconclusive
+		}
+		enc.Encode(CaseLine{K: "case", Stack: "server", Flavour: cs.Flavour, Cfg: cs.Cfg, W: cs.W, Req: cs.Req, Obs: []Obs{ob}})
+		if ob.Panic == "hang" {
+			break
+		}
+	}
+	return core.ExitOK
+}
+
+// runFlavours runs one child process per (flavour, source): the real command's configuration
+// parsing (viper is process-global), then that flavour's NewKeyper, router and the cases.
+func runFlavours(cfgs []CfgCase, cases []Case, body string) ([]CfgLine, []CaseLine, int, error) {
+	if len(cfgs) == 0 {
+		return nil, nil, 0, nil
+	}
+	exe, err := os.Executable()
+	if err != nil {
+		return nil, nil, 0, err
+	}
+	dir := core.Scratch("c18-flav")
+	defer os.RemoveAll(dir)
+	byCfg := map[string][]Case{}
+	for _, cs := range cases {
+		k := CfgCase{Flavour: cs.Flavour, Cfg: cs.Cfg}.key()
+		byCfg[k] = append(byCfg[k], cs)
+	}
+	cfgOut := make([]CfgLine, len(cfgs))
+	caseOut := make([][]CaseLine, len(cfgs))
+	var eb errBox
+	parallel(len(cfgs), 6, func(i int) {
+		jb, _ := json.Marshal(childJob{Flavour: cfgs[i].Flavour, Cfg: cfgs[i].Cfg, Cases: byCfg[cfgs[i].key()], Body: body})
+		path := fmt.Sprintf("%s/job%d.json", dir, i)
+		if err := os.WriteFile(path, jb, 0o644); err != nil {
+			eb.set(err)
+			return
+		}
+		ctx, cancel := context.WithTimeout(context.Background(), 5*time.Minute)
+		defer cancel()
+		cmd := exec.CommandContext(ctx, exe, "C18")
+		cmd.Env = append(os.Environ(), childEnv+"="+path)
+		var stdout, stderr bytes.Buffer
+		cmd.Stdout, cmd.Stderr = &stdout, &stderr
+		if err := cmd.Run(); err != nil {
+			eb.set(fmt.Errorf("supply-path child %s: %v: %s", cfgs[i].key(), err, stderr.String()))
+			return
+		}
+		dec := json.NewDecoder(&stdout)
+		first := true
+		for dec.More() {
+			var raw json.RawMessage
+			if err := dec.Decode(&raw); err != nil {
+				eb.set(fmt.Errorf("supply-path child %s printed garbage: %v", cfgs[i].key(), err))
+				return
+			}
+			if first {
+				first = false
+				if err := json.Unmarshal(raw, &cfgOut[i]); err != nil || cfgOut[i].K != "cfg" {
+					eb.set(fmt.Errorf("supply-path child %s: first line is not a cfg line", cfgs[i].key()))
+					return
+				}
+				continue
+			}
+			var l CaseLine
+			if err := json.Unmarshal(raw, &l); err != nil {
+				eb.set(err)
+				return
+			}
+			caseOut[i] = append(caseOut[i], l)
+		}
+		if first {
+			eb.set(fmt.Errorf("supply-path child %s printed nothing: %s", cfgs[i].key(), stderr.String()))
+		}
+	})
+	var lines []CaseLine
+	n := 0
+	for _, ls := range caseOut {
+		lines = append(lines, ls...)
+		n += len(ls)
+	}
+	return cfgOut, lines, n, eb.err
+}
+
+// runBursts: for every (setting, stack, n, k) one fresh instance goes through the overload and then
+// serves the after-burst requests TLC printed, one after the other; each is paired with the
+// decision the same request gets on a fresh instance.
+func runBursts(bursts []BurstCase, body string, workers int) ([]HistLine, int, error) {
+	if len(bursts) == 0 {
+		return nil, 0, nil
+	}
+	var order []string
+	groups := map[string][]BurstCase{}
+	for _, b := range bursts {
+		if _, ok := groups[b.group()]; !ok {
+			order = append(order, b.group())
+		}
+		groups[b.group()] = append(groups[b.group()], b)
+	}
+	lines := make([]HistLine, len(order))
+	var eb errBox
+	var mu sync.Mutex
+	requests := 0
+	par := workers / 8
+	if par < 1 {
+		par = 1
+	}
+	parallel(len(order), par, func(i int) {
+		grp := groups[order[i]]
+		b0 := grp[0]
+		// references: each request alone on a fresh instance
+		ln := HistLine{K: "hist", Stack: b0.Stack, W: b0.W, Obs: []Obs{}, Ref: []Obs{}}
+		for _, b := range grp {
+			g, err := NewGate(b.W, b.Stack, false)
+			if err != nil {
+				eb.set(err)
+				return
+			}
+			ob, err := g.Do(b.Req.M, b.Req.Target, body, b.Req.H)
+			g.Close()
+			if err != nil {
+				eb.set(err)
+				return
+			}
+			ln.Reqs = append(ln.Reqs, b.Req)
+			ln.Ref = append(ln.Ref, ob)
+		}
+		g, err := NewGate(b0.W, b0.Stack, false)
+		if err != nil {
+			eb.set(err)
+			return
+		}
+		defer g.Close()
+		info, n, err := g.Burst(b0.N, b0.K, b0.Hold, b0.Meanwhile, body)
+		if err != nil {
+			eb.set(err)
+			return
+		}
+		ln.Burst = info
+		for _, b := range grp {
+			ob, err := g.Do(b.Req.M, b.Req.Target, body, b.Req.H)
+			if err != nil {
+				eb.set(err)
+				return
+			}
+			ln.Obs = append(ln.Obs, ob)
+			if ob.Panic == "hang" {
+				break
+			}
+		}
+		for len(ln.Obs) < len(ln.Reqs) {
+			ln.Obs = append(ln.Obs, Obs{Effect: "Hang", Panic: "hang"})
+		}
+		lines[i] = ln
+		mu.Lock()
+		requests += n + 2*len(grp)
+		mu.Unlock()
+	})
+	return lines, requests, eb.err
 }
